@@ -50,7 +50,7 @@ def strategy(tier, phase):
     from hypothesis import strategies as st
 
     spec = st.fixed_dictionaries({
-        "g": st.integers(0, 1), "kind": st.integers(0, len(KINDS) - 1), "dtype": st.integers(0, len(DTYPES) - 1),
+        "g": st.integers(0, 2), "kind": st.integers(0, len(KINDS) - 1), "dtype": st.integers(0, len(DTYPES) - 1),
         "size": st.integers(0, 8), "alias": st.sampled_from([-1, -1, -1, 0, 1]), "tname": st.integers(0, 2), "seed": st.integers(0, 2**30),
     })
     opts = st.fixed_dictionaries({
@@ -85,7 +85,8 @@ def build(case, workdir):
     from onnx_ir import serde
 
     opts = case["opts"]
-    inits_main, inits_sub = [], []
+    inits_main, inits_sub, inits_sub2 = [], [], []
+    GN = ["main", "sub", "sub2"]
     made = []  # (tensor, code, shape, ref)
     expected = []
     other_file = os.path.join(workdir, "other.bin")
@@ -105,6 +106,12 @@ def build(case, workdir):
             code = 1
         b, kindc = refenc.DT[code]
         name = f"w{i}"
+        gi = sp["g"] % 3
+        if gi and backend == 0:
+            # sibling subgraphs may use the same initializer name (the scopes are disjoint): w-names are shared pairwise
+            cand_name = f"ws{i // 2}"
+            if not any(v_.name == cand_name for v_ in (inits_sub if gi == 1 else inits_sub2)):
+                name = cand_name
         if sp["alias"] >= 0 and sp["alias"] < len(made):
             tensor, code, shape, ref = made[sp["alias"]]
         else:
@@ -149,13 +156,16 @@ def build(case, workdir):
                 tensor = ir.ExternalTensor(rel, off, len(ref), dtype, shape=ir.Shape(shape), name=tname or name, base_dir=workdir)
             made.append((tensor, code, shape, ref))
         v = ir.Value(name=name, const_value=tensor)
-        (inits_sub if sp["g"] % 2 else inits_main).append(v)
-        expected.append((sp["g"] % 2, name, code, list(shape), ref))
+        [inits_main, inits_sub, inits_sub2][gi].append(v)
+        expected.append((GN[gi], name, code, list(shape), ref))
     x = ir.Value(name="x", type=ir.TensorType(ir.DataType.FLOAT), shape=ir.Shape([1]))
     inner = ir.Node("", "Identity", [inits_sub[0] if inits_sub else x], num_outputs=1, name="inner")
     inner.outputs[0].name = "inner_out"
     sub = ir.Graph([], [inner.outputs[0]], nodes=[inner], initializers=inits_sub, name="sub")
-    holder = ir.Node("", "If", [x], [ir.AttrGraph("then_branch", sub)], num_outputs=1, name="holder")
+    inner2 = ir.Node("", "Identity", [inits_sub2[0] if inits_sub2 else x], num_outputs=1, name="inner2")
+    inner2.outputs[0].name = "inner2_out"
+    sub2 = ir.Graph([], [inner2.outputs[0]], nodes=[inner2], initializers=inits_sub2, name="sub2")
+    holder = ir.Node("", "If", [x], [ir.AttrGraph("then_branch", sub), ir.AttrGraph("else_branch", sub2)], num_outputs=1, name="holder")
     holder.outputs[0].name = "y"
     g = ir.Graph([x], [holder.outputs[0]], nodes=[holder], initializers=inits_main, name="main", opset_imports={"": 20})
     model = ir.Model(g, ir_version=10)
@@ -247,7 +257,7 @@ def execute(case):
         above = 0
         kinds_present = set()
         for (gi, name, code, shape, ref), sp in zip(expected, case["inits"]):
-            g = lgraphs[0] if gi == 0 else [x for x in lgraphs if x.name == "sub"][0]
+            g = [x for x in lgraphs if x.name == gi][0]
             v = g.initializers.get(name)
             if v is None or v.const_value is None:
                 fails.append((f"initializer-missing/{bname}", f"initializer {name} missing after reload"))
@@ -278,7 +288,7 @@ def execute(case):
             for tp in gp.initializer:
                 if tp.data_location == onnx.TensorProto.EXTERNAL:
                     d = {e.key: e.value for e in tp.external_data}
-                    entries.append((tp.name, d.get("location"), int(d.get("offset", 0)), int(d["length"]) if "length" in d else None, tp))
+                    entries.append(((gp.name, tp.name), d.get("location"), int(d.get("offset", 0)), int(d["length"]) if "length" in d else None, tp))
             for n_ in gp.node:
                 for a in n_.attribute:
                     if a.HasField("g"):
@@ -288,7 +298,7 @@ def execute(case):
         by_file = {}
         for name, loc, off, length, tp in entries:
             by_file.setdefault(loc, []).append((name, off, length, tp))
-        exp_by_name = {e[1]: e for e in expected}
+        exp_by_name = {(e[0], e[1]): e for e in expected}
         padded = False
         for loc, lst in by_file.items():
             fpath = os.path.join(workdir, loc)
